@@ -140,6 +140,14 @@ def rule_take_util(ctx, M, rule):
                     while a[0] == "cast":
                         a = a[2]
                     ok = a == ("param", 1)
+                if not ok and not reads:
+                    # element-wise form: `array.map(|slot| slot.assume_init())` - <[T; N]>::map keeps positions
+                    rets = flow.returned_values(bi)
+                    if len(rets) == 1 and rets[0][3][0] == "call" and rets[0][3][1][1] == "map" and rets[0][3][2] and rets[0][3][2][0] == ("param", 1):
+                        cl = [y for y in M.F.bodies if y.kind == "Closure" and y.root == x.def_]
+                        if len(cl) == 1:
+                            cr = flow.returned_values(M.info(cl[0]))
+                            ok = len(cr) == 1 and cr[0][3][0] == "call" and cr[0][3][1][1] == "assume_init" and cr[0][3][2] and cr[0][3][2][0] == ("param", 2)
                 ctx.check(ok, rule, x.def_, "array_assume_init reinterprets the given array in place", site=x.span)
 
 
